@@ -180,10 +180,74 @@ def analyse(rep, F, f, site):
     return n_sub[0]
 
 
+def window_index(rep, F, f, site):
+    """R-LIN.window: in the loop nest that collects the control points, window t takes trajectory[t*(degree-1) + n],
+    n = 0..degree-1 (consecutive windows share exactly one point).  Decided by exact evaluation of the subscript for
+    degree = 2..6 with symbolic loop counters (local integer definitions substituted)."""
+    import sympy as sp
+    from . import scalar_eval as SE
+    body = f.get("body") or {}
+    stmts = body.get("ch") or []
+    pn = [p for p in f["params"]]
+    if len(pn) < 2:
+        rep.broke("anchor vanished: parameters of decasteljau")
+        return 0
+    traj, deg = pn[0]["decl"], pn[1]["decl"]
+    # the first top-level loop nest whose innermost body takes the address of trajectory[...]
+    nest = None
+    for s_ in stmts:
+        if s_.get("k") == "ForStmt":
+            inner = [x for x in A.walk(s_.get("body")) if x.get("k") == "ForStmt"]
+            subs = [x for x in A.walk(s_) if x.get("k") in ("CXXOperatorCallExpr",) and x.get("op") == "[]" and refs(x.get("ch", [None, None])[1] if len(x.get("ch", [])) > 1 else None, {traj})]
+            if inner and subs:
+                nest = (s_, inner[0], subs)
+                break
+    if nest is None:
+        rep.broke("anchor vanished: the loop nest collecting the control points in decasteljau")
+        return 0
+    outer, inner, subs = nest
+
+    def counter(loop):
+        init = loop.get("init") or {}
+        for d in init.get("decls") or []:
+            if d.get("k") == "VarDecl":
+                return d["decl"]
+        return None
+    ct, cn = counter(outer), counter(inner)
+    if ct is None or cn is None:
+        rep.broke("R-LIN.window: loop counters of the control-point loop nest not found")
+        return 0
+    n = 0
+    t_, n_ = sp.Symbol("t", integer=True, nonnegative=True), sp.Symbol("n", integer=True, nonnegative=True)
+    for d in range(2, 7):
+        ev = SE.ScalarEval(F)
+        env = {deg: sp.Integer(d), ct: t_, cn: n_}
+        ev.run_straight([x for x in stmts if x.get("k") == "DeclStmt"], env)
+        env.update({deg: sp.Integer(d), ct: t_, cn: n_})
+        inits = {id(outer.get("init")), id(inner.get("init"))}
+        ev.run_straight([x for x in A.walk(outer.get("body")) if x.get("k") == "DeclStmt" and id(x) not in inits], env)   # locals of the nest
+        env.update({deg: sp.Integer(d), ct: t_, cn: n_})
+        for sub in subs:
+            idx = sub["ch"][2] if len(sub.get("ch", [])) > 2 else None
+            try:
+                val = sp.expand(ev.ev(idx, env))
+            except (SE.Unknown, SE.Thrown) as e:
+                rep.broke("R-LIN.window cannot evaluate the subscript at line %s for degree %d: %s" % (sub.get("ln"), d, e))
+                continue
+            want = sp.expand(t_ * (d - 1) + n_)
+            n += 1
+            rep.obligation(sp.simplify(val - want) == 0, lambda d=d, val=val, want=want, sub=sub: C.Finding(
+                "C17", "R-LIN.window", "%s:window-index(degree=%d)" % (site.split("{")[0], d),
+                "for degree %d window t collects trajectory[%s] instead of trajectory[%s]: consecutive windows do not share their end point" % (d, val, want),
+                f["file"], sub.get("ln")))
+    return n
+
+
 def run(args):
     rep = C.Report("C17", "other", "must-pass-through argument checks, counted loops, guarded-unsigned-subtraction rule on decasteljau()")
     n = 0
     nsub = 0
+    nwin = 0
     for v in FX.variants():
         F = FX.get(v)
         f = next((g for g in F.functions if g["kind"] == "inst" and g["short"] == "decasteljau" and g["file"].endswith("algorithms/decasteljau.h")), None)
@@ -192,11 +256,14 @@ def run(args):
             continue
         n += 1
         nsub += analyse(rep, F, f, "decasteljau{%s}" % v)
+        nwin += window_index(rep, F, f, "decasteljau{%s}" % v)
     rep.floor("instantiations", n, 8)
     rep.floor("unsigned_subtractions", nsub, 8 * 7)
+    rep.floor("window_index_evaluations", nwin, 8 * 5)
     rep.rules = [
         "R-MPT.args: the three argument checks (more than two points, degree <= N, k_interp > 0) precede all index arithmetic",
         "R-LOOP: every loop is a counted loop whose counter and bound are not modified in its body (termination, given wrap-free bounds)",
+        "R-LIN.window: window t of the control-point loop nest takes trajectory[t*(degree-1)+n], n < degree - decided by exact evaluation of the subscript for degree 2..6 with symbolic loop counters (consecutive windows share one point; index <= (t+1)(degree-1))",
         "R-LIN.unsigned-wrap: every unsigned subtraction a-b is dominated by a check / branch / loop condition, or a property precondition (N>=3, 2<=degree<=N, k>=1), that syntactically yields a >= b (after substituting const local definitions); exemptions are a table with one line of reason each",
     ]
     rep.units = ["%s_double_own_funcs_debug" % v for v in FX.variants()]
